@@ -449,6 +449,7 @@ of_linear_binary_code_simplify_linear_system_with_a_symbol (of_linear_binary_cod
 		_del_me = _e;
 		_e = of_mod2sparse_next_in_col (_e);
 		of_mod2sparse_delete (ofcb->pchk_matrix, _del_me);
+		ofcb->tab_nb_enc_symbols_per_equ[_row]--;	// one entry less in this equation
 		// If there is only one more symbol in the line, reinject it and progress like that
 		if (ofcb->tab_nb_unknown_symbols[_row] == 1)
 		{
@@ -488,6 +489,7 @@ of_linear_binary_code_simplify_linear_system_with_a_symbol (of_linear_binary_cod
 					// It'll be known at the end of this step
 					ofcb->tab_nb_unknown_symbols[_row]--;	// symbol is known
 					of_mod2sparse_delete (ofcb->pchk_matrix, __r);
+					ofcb->tab_nb_enc_symbols_per_equ[_row]--;
 					of_linear_binary_code_simplify_linear_system_with_a_symbol (ofcb, ofcb->encoding_symbols_tab[decoded_symbol_seqno],
 												    decoded_symbol_seqno);
 					ofcb->nb_source_symbol_ready++;
@@ -523,6 +525,7 @@ of_linear_binary_code_simplify_linear_system_with_a_symbol (of_linear_binary_cod
 					ofcb->tab_nb_unknown_symbols[_row]--;	// symbol is known
 					ofcb->tab_nb_equ_for_repair[decoded_symbol_seqno - ofcb->nb_source_symbols]--;
 					of_mod2sparse_delete (ofcb->pchk_matrix, __r);
+					ofcb->tab_nb_enc_symbols_per_equ[_row]--;
 					of_linear_binary_code_simplify_linear_system_with_a_symbol (ofcb, ofcb->encoding_symbols_tab[decoded_symbol_seqno],
 												    decoded_symbol_seqno);
 					ofcb->nb_repair_symbol_ready++;
